@@ -21,7 +21,7 @@ def gen_content(rnd, multiline=True):
     parts = [rnd.choice(WORDS) for _ in range(n)]
     s = " ".join(parts)
     if rnd.random() < 0.2: s += rnd.choice(["$", "\\0", "\\p", "\\n"])
-    elif rnd.random() < 0.15: s += rnd.choice([" 110", "0", " LV. 50", "\\", "0$", "$0"])   # look-alikes of terminators
+    elif rnd.random() < 0.15: s += rnd.choice([" 110", "0", " LV. 50", "\\", "0$", "$0", " \\0", " \\h x"])   # look-alikes of terminators
     return s
 
 def string_lit(rnd, content, typ, multipart=True):
@@ -173,6 +173,8 @@ class TopGen:
                         tgt = "Ext_" + typ if r.random() < 0.7 else "Ext_shared"      # two entries may name the same script
                         inl = [e[2] for e in ents if e[0] == "inline"] + [rw[3] for e in ents if e[0] == "table" for rw in e[3] if rw[0] == "inline"]
                         if inl and r.random() < 0.5: tgt = r.choice(inl)     # ... or an inline script of this very statement, through its generated name
+                        prev = [it[1] for it in self.items if it[0] == "script"]
+                        if prev and r.random() < 0.3: tgt = r.choice(prev)   # ... or a script statement of this file (which keeps its own scope)
                         ents.append(("plain", typ, tgt)); s += "  %s: %s\n" % (typ, tgt)
                     elif y < 0.7:
                         owner = "%s_%s" % (name, typ); _, _, body, labels = self.script(name=owner)
@@ -192,6 +194,8 @@ class TopGen:
                                 rtgt = "Ext_row%d" % j
                                 inl = [e[2] for e in ents if e[0] == "inline"] + [rw[3] for rw in rows if rw[0] == "inline"]
                                 if inl and r.random() < 0.4: rtgt = r.choice(inl)      # the generated name of an inline script of this statement
+                                prev = [it[1] for it in self.items if it[0] == "script"]
+                                if prev and r.random() < 0.2: rtgt = r.choice(prev)
                                 rows.append(("plain", vexp, cexp, rtgt)); s += "    %s, %s: %s\n" % (vsrc, csrc, rtgt)
                             else:
                                 owner = "%s_%s_%d" % (name, typ, j); _, _, body, labels = self.script(name=owner)
@@ -531,7 +535,7 @@ def gen_C09(rnd, n, tier):
         origin = rnd.choice(["stmt", "inline", "pory", "pory_", "pair", "pair1", "format", "format"])
         cfg = base_cfg(switches={"V": "A"})
         # (format() normalises blanks: only texts that are already single-spaced come out unchanged)
-        if origin == "format" and (nparts != 1 or "\\" in parts[0] or srcparts[0] != '"%s"' % parts[0] or parts[0] != " ".join(parts[0].split())): origin = "stmt"
+        if origin == "format" and (nparts != 1 or "\\" in parts[0].replace("\\0", "").replace("\\h", "") or srcparts[0] != '"%s"' % parts[0] or parts[0] != " ".join(parts[0].split())): origin = "stmt"
         if origin == "format":
             # format() of a text that fits on one line leaves it alone; the terminator is still the type's
             cfg = base_cfg(switches={"V": "A"}, fontdefault="F1", fonts={"F1": {"maxLineLength": 100000, "numLines": 2, "cursorOverlapWidth": 0, "widths": {"default": 1}}})
@@ -703,7 +707,7 @@ def gen_C14(rnd, n, tier):
                     continue
                 if rnd.random() < 0.4:
                     mult, val = rnd.choice([("2", 2), ("1", 1), ("0x3", 3), ("010", 8), ("9999", 9999), ("0", None), ("10000", None), ("-2", None), ("0x", None), ("09", None), ("3", 3),
-                                                  ("65536", None), ("65537", None), ("0x10001", None), ("75535", None), ("4294967297", None), ("9223372036854775807", None), ("0x7fffffffffffffff", None)])
+                                                  ("-0x3", None), ("-0x0", None), ("-1", None), ("0X3", None), ("+2", None), ("65536", None), ("65537", None), ("0x10001", None), ("75535", None), ("4294967297", None), ("9223372036854775807", None), ("0x7fffffffffffffff", None)])
                     src.append("%s * %s" % (st, mult))
                     if val is None:
                         if err is None: err = mult
@@ -825,7 +829,7 @@ def gen_C16(rnd, n, tier):
         src = relayout(src0, rnd) if rnd.random() < 0.8 else src0
         if rnd.random() < 0.3: src = rnd.choice(["\n\n", "  \n", "\r\n", "\t", "# header\n\n", " "]) + src     # the file may start with blank lines
         if rnd.random() < 0.2: src = src + rnd.choice(["\n\n\n", "  ", "\n# eof"])
-        path = rnd.choice(["in.pory", "dir\\sub\\file.pory", "a b.pory", ""])
+        path = rnd.choice(["in.pory", "dir\\sub\\file.pory", "a b.pory", "", "Route%20101.pory", "%d_%s\\x.pory", "é \"q\".pory"])
         opt = rnd.random() < 0.5
         grp = []
         for lm in (True, False):
@@ -906,6 +910,19 @@ class Pory:
             return ("if (flag(F)) { %s }" % b, lambda sw, bs=bs: (None if bs(sw) is None else "if (flag(F)) { %s }" % bs(sw)))
         if x < 0.78:
             t = "PL%s:" % r.choice("abc"); return (t, lambda sw, t=t: t)       # a label statement (also the only statement of a case; the same name in several cases)
+        if x < 0.84:
+            # a statement that the parser expands to two (auto-var command + switch), also as the single statement of a `key:` case
+            t = r.choice(["switch (random(3)) { case 0: z0 case 1: z1 }", "switch (checkitem(ITEM_A, 1)) { case 1: z2 }", "if (checkitem(ITEM_B, 1)) { z3 }", "while (random(2) == 1) { z4 }"])
+            return (t, lambda sw, t=t: t)
+        if x < 0.88 and depth == 0:
+            # `continue` / `break` spliced in by a case: followed by further statements of that case (invalid for A), or last (valid)
+            kw = r.choice(["continue", "break"]); lp = r.choice(["while (flag(L)) { a %s }", "do { a %s } while (flag(L))"])
+            w = lp % ("poryswitch(V) { A { %s after_a } B: b _ { %s } }" % (kw, kw))
+            # (every case is parsed, so this program is rejected under every switch value - `None` = "must not compile";
+            # for A the hand-selected program is rejected as well, and the oracle demands that both are)
+            # (statements after a `break` are legal dead code: plain selection there)
+            if kw == "break": return (w, lambda sw, lp=lp: lp % ({"A": "break after_a", "B": "b"}.get(sw, "break")))
+            return (w, lambda sw, lp=lp, kw=kw: (lp % ("%s after_a" % kw)) if sw == "A" else None)
         s.ncmd += 1; t = "c%d(x, 1)" % s.ncmd; return (t, lambda sw, t=t: t)
     def move_item(s, depth):
         r = s.r
@@ -965,7 +982,12 @@ def oracle_C12_group(cases, results):
         if w[1]["kind"] == "OK": return "no case matches %s and there is no '_', but compilation succeeded" % w[0].meta["sw"]
         return None
     s = [(c, r) for c, r in zip(cases, results) if c.meta["role"] == "selected"][0]
-    if s[1]["kind"] != "OK": return None     # the hand-selected program is itself invalid: nothing to compare
+    if s[1]["kind"] != "OK":
+        # the hand-selected program is itself invalid. Numbering-dependent clashes aside there is nothing to compare -
+        # but a misplaced continue / break is structural: the program with the poryswitch must be rejected as well
+        if s[1]["kind"] == "PERR" and re.search(r"must be the last statement|outside of any", s[1].get("msg", "")) and w[1]["kind"] == "OK":
+            return "the selected program is rejected (%s) but the program with the poryswitch compiles (switch V=%s)" % (s[1].get("msg"), w[0].meta["sw"])
+        return None
     if w[1] != s[1]:
         return "output with poryswitch differs from output of the selected program (switch V=%s): %s" % (w[0].meta["sw"], w[1].get("msg", "texts differ"))
     return None
